@@ -157,10 +157,13 @@ def hp(p):
     return p
 
 
-def canon(ag, sort_sinks=False, rename=None):
+def canon(ag, sort_sinks=False, rename=None, ordered=True):
     """Isomorphism-invariant form of the part of an AG reachable from its sinks: multiset of node keys
     (forward key = name, payload, outputs, inputs -> parents' keys; refined by the keys of the consumers,
-    so sharing is visible) + sink keys. No object identities, no hash-seeded names."""
+    so sharing is visible) + sink keys. No object identities, no hash-seeded names.
+    ordered (default): the inputs of a node are compared IN THE ORDER of its `inputs` dict (the model's
+    `Node.inputs` is a list and every transformer defines the order of the inputs it builds; fuse_nodes offers
+    the inputs to the callback in that order), not as a set."""
     nodes = ag["nodes"]
     sinks = ag["sinks"]
     rename = rename or (lambda s: s)
@@ -176,8 +179,9 @@ def canon(ag, sort_sinks=False, rename=None):
     cons = {i: [] for i in reach}
     for i in sorted(reach):
         n = nodes[i]
+        ins = [(k, o, fk[j]) for k, j, o in n["inputs"]]
         fk[i] = INTERN(("F", rename(n["name"]), hp(n["payload"]), tuple(n["outputs"]),
-                        tuple(sorted((k, o, fk[j]) for k, j, o in n["inputs"]))))
+                        tuple(ins) if ordered else tuple(sorted(ins))))
         for k, j, o in n["inputs"]:
             cons[j].append((i, k, o))
     sc = collections.Counter(sinks)
@@ -194,15 +198,18 @@ class Sym:
     """Hash-consed terms over payloads, computed on REAL node objects. A term is
     (payload id, outputs, {(input name, output name of parent, term of parent)}); names do not occur."""
 
-    def __init__(self, pid=payload_id):
+    def __init__(self, pid=payload_id, ordered=False):
         self.memo = {}
         self.pid = pid
+        self.ordered = ordered      # True: the ORDER of the inputs dict is part of the term ("TO" terms, never equal to "T" terms)
 
     def node(self, n):
         t = self.memo.get(id(n))
         if t is None:
-            ins = tuple(sorted((k, src.name, self.node(src.parent)) for k, src in n.inputs.items()))
-            t = self.memo[id(n)] = INTERN(("T", hp(self.pid(n.payload)), tuple(n.outputs), ins))
+            ins = tuple((k, src.name, self.node(src.parent)) for k, src in n.inputs.items())
+            if not self.ordered:
+                ins = tuple(sorted(ins))
+            t = self.memo[id(n)] = INTERN(("TO" if self.ordered else "T", hp(self.pid(n.payload)), tuple(n.outputs), ins))
             self.keep = getattr(self, "keep", [])
             self.keep.append(n)   # keep the object alive: id() must stay unique
         return t
@@ -224,7 +231,11 @@ def ag_terms(ag):
 NAMES = ["main", "mean", "m", "a", "ab", "a.b", "b", "0", "n0", "x.", "ma", "in", "name", "node", "p", "n.a.m", "am.i",
          "leaf", "i", "nim", ".", "a b", "é", "payload"]
 OUTPUT_SETS = [["0"], ["0"], ["0"], ["o1", "o2"], ["0", "1", "2"], [], [], ["name"], ["payload", "copy"], ["outputs", "0"],
-               ["inputs"], ["get_output"], ["__class__"], ["leaves", "0"], ["main", "mean"], ["serialise"], ["x.y", "0"]]
+               ["inputs"], ["get_output"], ["__class__"], ["leaves", "0"], ["main", "mean"], ["serialise"], ["x.y", "0"],
+               # permuted pairs (same set, other order: different nodes for `a.outputs != b.outputs`) and 4-6 outputs
+               ["0", "y"], ["y", "0"], ["o2", "o1"], ["1", "0", "2"], ["2", "1", "0"], ["0", "x.y"], ["mean", "main"],
+               ["a", "b", "c", "d"], ["d", "c", "b", "a"], ["0", "1", "2", "3", "4"], ["o1", "o2", "o3", "o4", "o5", "o6"],
+               ["3", "0", "1", "2"]]
 INPUT_NAMES = ["in0", "in1", "in2", "input", "x", "y", "node", "n", "p", "s", "a.b", "0", "inputs", "copy", "input0", "k", "graph", "g"]
 PLAIN_OUTPUT_SETS = [["0"], ["0"], ["o1", "o2"], ["0", "1", "2"], []]
 PLAIN_INPUT_NAMES = ["in0", "in1", "in2", "input", "x", "y"]
@@ -389,8 +400,15 @@ def gen_graph(rng, nmax, adversarial=True, unique_names=True, names=None, min_no
             ins = [list(x) for x in src["inputs"]]
             rng.shuffle(ins)
             node = {"name": None, "outputs": list(src["outputs"]), "payload": src["payload"], "inputs": ins}
-            if rng.random() < 0.3 and ins:      # near-duplicate: one input re-pointed / payload changed
-                if rng.random() < 0.5:
+            if len(node["outputs"]) > 1 and rng.random() < 0.35:
+                # equal payload, inputs and SET of outputs, but the outputs listed in another order: not a duplicate
+                # (`a.outputs != b.outputs`), although a set-based comparison would say so
+                outs = list(node["outputs"])
+                while outs == node["outputs"]:
+                    rng.shuffle(outs)
+                node["outputs"] = outs
+            if rng.random() < (0.6 if len(ins) >= 4 else 0.3) and ins:      # near-duplicate: one input re-pointed / payload changed
+                if rng.random() < (0.2 if len(ins) >= 4 else 0.5):
                     node["payload"] = rng.randint(0, 4)
                 else:
                     cands = [(j, o) for j, x in enumerate(nodes) for o in x["outputs"]]
@@ -399,6 +417,8 @@ def gen_graph(rng, nmax, adversarial=True, unique_names=True, names=None, min_no
         else:
             cands = [(j, o) for j, x in enumerate(nodes) for o in x["outputs"]]
             k = rng.randint(0, min(3, len(cands))) if cands else 0
+            if cands and rng.random() < 0.10:
+                k = rng.randint(4, 6)              # wide node: 4-6 inputs (parents drawn with replacement)
             ks = rng.sample(inames, k)
             ins = []
             for kn in ks:
@@ -445,7 +465,7 @@ def gen_chainy(rng, nmax, adversarial=True):
     free = []      # (node, output) not yet consumed
     used = set()
     for i in range(n):
-        k = 0 if not free else rng.choice([0, 1, 1, 1, 2, 2, 3])
+        k = 0 if not free else rng.choice([0, 1, 1, 1, 2, 2, 3] + ([4, 5] if rng.random() < 0.3 else []))
         ins = []
         for kn in rng.sample(inames, min(k, len(inames))):
             if free and rng.random() < 0.85:
@@ -491,6 +511,15 @@ def features(ag):
     f["attr_output"] = any(o in attrs for n in nodes for o in n["outputs"])
     f["param_input"] = any(k in ("node", "n", "p", "s", "g", "graph") for n in nodes for k, _, _ in n["inputs"])
     f["terminal_with_outputs"] = any(nodes[s]["outputs"] for s in ag["sinks"])
+    f["wide_inputs_4plus"] = any(len(n["inputs"]) >= 4 for n in nodes)
+    f["wide_outputs_4plus"] = any(len(n["outputs"]) >= 4 for n in nodes)
+    f["fourth_output_consumed"] = any(o in nodes[j]["outputs"][3:] for n in nodes for _, j, o in n["inputs"])
+    perm = collections.defaultdict(set)
+    for n in nodes:
+        if len(n["outputs"]) > 1:
+            perm[(hp(n["payload"]), tuple(sorted(n["outputs"])), tuple(sorted(map(tuple, n["inputs"]))))].add(tuple(n["outputs"]))
+    f["permuted_output_twins"] = any(len(v) > 1 for v in perm.values())
+    f["sink_twice"] = len(set(ag["sinks"])) < len(ag["sinks"])
     # names built from other names
     names = {n["name"] for n in nodes}
     f["name_is_node_dot_output"] = any(n["name"] + "." + o in names for n in nodes for o in n["outputs"])
